@@ -40,7 +40,7 @@ CHECKS = {
                  "equal-but-distinguishable input as stated per sub-check; distinct by descriptor hash."),
         "quick": {"rapid": 200, "timeout": 300, "shards": 4},
         "thorough": {"rapid": 4000, "timeout": 3000, "shards": 16,
-                     "fuzz": {"seconds": 45, "targets": ["FuzzC18_Strconv", "FuzzC18_Regexp", "FuzzC18_TextHelpers", "FuzzC18_TimeTemplateEncodings", "FuzzC18_Sort", "FuzzC18_Stdio"]}},
+                     "fuzz": {"seconds": 45, "targets": ["FuzzC18_Strconv", "FuzzC18_Regexp", "FuzzC18_TextHelpers", "FuzzC18_TimeTemplateEncodings", "FuzzC18_Sort", "FuzzC18_Stdio", "FuzzC18_TextRandom"]}},
         "assumptions": COMMON_ASSUMPTIONS + ["the standard-library functions the plugins wrap (strconv, regexp, time, text/html template, encoding/*, sort) are the oracles"],
         "technique": "differential property-based testing against the wrapped standard-library function, flavour agreement, round trips, permutation/stability and concatenation predicates; native Go fuzz targets in the thorough tier",
         "level_text": ("Exploration. Item by item, every plugin operator is compared with the library function it wraps applied directly (same value, or an Error notification carrying "
@@ -48,7 +48,8 @@ CHECKS = {
                        "CSV); sort emits a sorted permutation, stable where it says so; reader chunks concatenate to the input (lines: minus terminators), including data returned with "
                        "EOF and injected read faults; no operator modifies the value it was handed or a value already delivered; every plugin row keeps grammar, source release and context."
                        " Time operators are also fed moments within a day of a zone-offset change in six daylight-saving locations (time/tzdata linked in)."
-                       " time.Parse is judged with the process's local zone drawn from the same locations (zone abbreviations and offsets are matched against time.Local)."),
+                       " time.Parse is judged with the process's local zone drawn from the same locations (zone abbreviations and offsets are matched against time.Local)."
+                       " Random(size, charset) of the text plugins by a validity predicate (exactly size characters, all from the charset, for charsets of 1..68 characters incl. multi-byte runes); ParseUint64 and FormatComplex against strconv."),
         "level_note": "One listed finding pinned by the plugins' own tests (byte-wise word splitting on non-ASCII text).",
     },
     "C20": {
@@ -354,7 +355,8 @@ CHECKS = {
                        "{Next 1, Next 2, Error, Complete}, most of which break the contract after the first terminal; the automaton Next* (Error|Complete)? "
                        "must accept what the observer saw and, for bare observables and subjects, delivered + dropped-hook calls must equal what was emitted. "
                        "Concurrent producers are generated for the safe constructors and the subjects (statistical)."
-                       " Bare constructors are also run with a subscribe function that panics AFTER having played its word (the recovered panic must obey the grammar like any other notification)."),
+                       " Bare constructors are also run with a subscribe function that panics AFTER having played its word (the recovered panic must obey the grammar like any other notification)."
+                       " The subscriber constructors used directly, the partial observers (OnNext / OnError / OnComplete and WithContext forms) and subjects reached through NewSubject / AsObserver / AsObservable are fed every word as well."),
         "level_note": ("The concurrent part only sees the interleavings the Go scheduler produces (5 repetitions per generated case, widened by a slow callback); "
                        "asynchronous / multi-source rows are covered by C02/C05, panicking callbacks by C07."),
     },
